@@ -1,5 +1,7 @@
 import Driver.Common
 import Model.Table
+import Model.TableTools
+import Model.TableMdcev
 open Lean Drv Tbl
 
 namespace D13
@@ -96,6 +98,9 @@ def handle (j : Json) : Except String Json := do
       pure (Json.mkObj [("repaired", resDB (db.scale c sv))])
     | [Json.str "panel", Json.str c] =>
       pure (Json.mkObj [("repaired", resDB (db.panel c))])
+    | [Json.str "mdcev_count", names, Json.str n] =>
+      let ns ← strList names
+      pure (Json.mkObj [("repaired", resDB (db.mdcevCount ns n))])
     | _ => throw "bad-op"
   | "eval" =>
     let db ← parseDB (← j.getObjVal? "db")
@@ -149,6 +154,43 @@ def handle (j : Json) : Except String Json := do
         let out := flatten db.t jj ident
         pure (Json.mkObj [("ok", jArr (out.map fun (i, cells) =>
           jArr [fbits i, jArr (cells.map fun (n, v) => jArr [jStr n, fbits v])]))])
+  | "flatten_direct" =>
+    -- tools.database.flatten_database(df, merge_id, row_name, identical_columns) on any frame
+    let cols ← strList (← j.getObjVal? "cols")
+    let rows ← parseRows (← j.getObjVal? "rows")
+    let merge ← getStr j "merge"
+    let rowName : Option String ←
+      match j.getObjVal? "row_name" with
+      | .ok Json.null => pure none
+      | .ok (Json.str s) => pure (some s)
+      | _ => throw "bad-op"
+    let identical : Option (List String) ←
+      match j.getObjVal? "identical" with
+      | .ok Json.null => pure none
+      | .ok v => do pure (some (← strList v))
+      | .error _ => throw "bad-op"
+    match flattenDirect (⟨cols, rows⟩ : Table Float) merge rowName identical with
+    | .error e => pure (Json.mkObj [("err", jStr (errStr e))])
+    | .ok out =>
+      let cellJson : CellName Float × Float → Json := fun (n, v) =>
+        match n with
+        | .common c => jArr [jStr "c", Json.null, jStr c, fbits v]
+        | .obs (.pos k) c => jArr [jStr "p", jNat k, jStr c, fbits v]
+        | .obs (.val w) c => jArr [jStr "v", fbits w, jStr c, fbits v]
+      pure (Json.mkObj [("ok", jArr (out.map fun (i, cells) => jArr [fbits i, jArr (cells.map cellJson)]))])
+  | "row_split" =>
+    let db ← parseDB (← j.getObjVal? "db")
+    let range : Option (List Int) ←
+      match j.getObjVal? "range" with
+      | .ok Json.null => pure none
+      | .ok v => do pure (some (← intList v))
+      | .error _ => throw "bad-op"
+    match db.rowSplit range with
+    | .ok parts => pure (Json.mkObj [("ok", jArr (parts.map rowsJson))])
+    | .error e => pure (Json.mkObj [("err", jStr (errStr e))])
+  | "sizes" =>
+    let db ← parseDB (← j.getObjVal? "db")
+    pure (Json.mkObj [("n_obs", jNat db.nObs), ("sample_size", jNat db.sampleSize)])
   | "folds" =>
     -- relations on real outputs
     let all ← intList (← j.getObjVal? "all")
